@@ -35,6 +35,7 @@ func inPkg(fn *ssa.Function, path string) bool {
 
 func runC08(c *Ctx) {
 	w := c.W
+	c08Extras4(c)
 	// findVerifiedParents returns the members for which CheckSignatureFrom succeeds: C03's rule for it applies here
 	c.borrow(runC03, func(o *Obligation) bool { return strings.Contains(o.Func, "CheckSignatureFrom") })
 	fw := w.FieldWrites()
